@@ -44,7 +44,7 @@ WF(d, nv) ==
     /\ Relax # "nvlarger" \/ (nv # 0 => \A i \in DOMAIN d.blocks : d.blocks[i].nv < nv)       \* asking for more than there is: the reader spins
     /\ d.flav = "TOUGH2" => \A i \in DOMAIN d.blocks : ~d.blocks[i].perm                    \* permeabilities are a TOUGHREACT feature
     /\ Relax = "trnoperm" \/ (d.flav = "TOUGHREACT" =>                                      \* the reader recognises TOUGHREACT by them
-          (d.blocks # <<>> /\ \A i \in DOMAIN d.blocks : d.blocks[i].perm))
+          (d.blocks # <<>> /\ \E i \in DOMAIN d.blocks : d.blocks[i].perm))         \* (some block, not necessarily every block)
 
 (* ---- records *)
 Header(long) == [k |-> IF long THEN "header_long" ELSE "header_short"]
